@@ -182,6 +182,21 @@ func c16Run(w *W, c Case) {
 		if ok := dayStar(j); !ok[gd] && !ok[-1] {
 			w.Violatef("day-star", ymd(st.Y, st.M, st.D), "day star of %s is index %d; counting from the jiazi days nearest the solstices gives %v", ymd(st.Y, st.M, st.D), gd, ok)
 		}
+		// the stars are no matter of the chart's day-boundary convention: at 23:xx, switching the Lunar's chart to sect 1
+		// leaves all four where they were
+		if st.H == 23 {
+			stars := func() string {
+				return fmt.Sprint(l.GetYearNineStar().GetIndex(), l.GetMonthNineStar().GetIndex(), l.GetDayNineStar().GetIndex(), l.GetTimeNineStar().GetIndex(), l.GetTime().GetNineStar().GetIndex())
+			}
+			before := stars()
+			l.GetEightChar().SetSect(1)
+			after := stars()
+			l.GetEightChar().SetSect(2)
+			if before != after {
+				w.Violatef("hour-star", key+"/sect-switch", "year/month/day/hour/hour-object star indices at %s are %s, and %s after the Lunar's chart was switched to sect 1", key, before, after)
+			}
+			w.Eval(1)
+		}
 		// hour star(s)
 		asc := (j >= winter0 && j < summer) || j >= winter1
 		db := ref.DayPair(j) % 12
